@@ -29,7 +29,7 @@ DEVS = ["SetPhaseOffsetDropsGray", "QamGrayIndexInverted", "QamAcceptsOne", "NoN
         "DetectRealOnly", "GrayTwice", "BerNotPerBit", "ModulateReusesBuffer", "AbsorbsTinyTerms",
         "BlockwiseRoundsDown"]
 INVARIANTS = ["TypeOK", "Rejects", "TableOK", "RoundTrip", "ModulateLaw", "EarlierResultsUnchanged", "MLLaw", "Lemmas"]
-RADII = [0.5, 1.0, 3.0]           # PSK sample radius numbers 1..3 (ConstellationOps: the radius does not matter)
+RADII = [0.5, 1.0, 3.0, 1e-6, 1e6]           # PSK sample radius numbers 1..5 (4, 5 only in grid rows: D = 8, float64 resolves the margin) (ConstellationOps: the radius does not matter)
 
 QAM_ORDERS = [4 ** k for k in range(1, 7)]            # 4 .. 4096
 PSK_ORDERS = [2 ** k for k in range(1, 11)]           # 2 .. 1024
@@ -188,6 +188,7 @@ def logical(out):
 
 # ------------------------------------------------------------------ recording a history
 # (shape, layout) of the arrays handed to modulate / demodulate
+IDX_DTYPES = ["int64", "uint8", "int32", "uint16", "int8", "uint32", "int16", "uint64", "bool"]
 SHAPES = [((), "C"), ((1,), "C"), ((7,), "C"), ((2, 3), "C"), ((2, 1, 4), "C"), ((0,), "C"), ((1, 1), "C"), ((3, 2, 2, 1), "F"),
           ((), "0d"), ((7,), "strided"), ((6,), "reversed"), ((3, 5), "F"), ((5, 3), "T"), ((4, 3), "strided"), ((3, 4), "lastaxis"),
           ((2, 3, 4), "F"), ((4, 3, 2), "T"), ((3, 2, 4), "lastaxis"), ((3, 3), "reversed")]
@@ -199,18 +200,20 @@ def record_history(spec):
     setPhaseOffset...], seed, d, nsamp, calls=bool).  Deterministic in spec."""
     kind, M = spec["kind"], spec["M"]
     sk = spec_kind(kind)
-    rng = np.random.RandomState(spec.get("seed", 0) * 7919 + M * 13 + len(kind))
+    rng = np.random.RandomState(spec.get("seed", 0) * 7919 + abs(M) * 13 + len(kind))
     d = spec.get("d", 8)
     trace = {"kind": sk, "m": M, "d": d, "events": [], "spec": spec}
     phases = spec.get("phases") or [0.0]
     ph0 = math.pi / 4 if kind == "QPSK" else phases[0]
-    out, obj = outcome(lambda: make(kind, M, phases[0]))
+    Mv = getattr(np, spec["mtype"])(M) if spec.get("mtype") else M      # the cardinality as a numpy integer scalar
+    out, obj = outcome(lambda: make(kind, Mv, phases[0]))
     if out != "ok":
-        trace["events"].append({"op": "construct", "out": out, "tab": [], "tabok": False, "scale": [0, 1], "scaleok": False})
+        trace["events"].append({"op": "construct", "out": out, "tab": [], "tabok": False, "scale": [0, 1], "scaleok": False, "kok": False})
         return trace, None
     Mi = int(getattr(obj, "M", 0))
     tb = Table(sk, M, obj.symbols, ph0)
     ev = tb.event("construct", out="ok")
+    ev["kok"] = bool(Mi == M and M >= 1 and abs(float(getattr(obj, "K", -1)) - math.log2(M)) <= 1e-12)
     if Mi != M or len(tb.tab) != M:
         ev["tabok"] = False
     trace["events"].append(ev)
@@ -247,12 +250,23 @@ def record_history(spec):
                     now, okn = [int(v) for v in np.asarray(res).reshape(-1)], True
                 trace["events"].append({"op": "recheck", "of": k, "now": now, "nowok": bool(okn)})
 
-        def mod_event(idx, lay, arg=None):
-            arg = as_layout(idx, lay) if arg is None else arg
+        def typed(idx, k):
+            """the index array stored in the k-th integer type (rotating) that can hold its values"""
+            top = int(np.max(idx)) if np.size(idx) else 0
+            # (a bool array is an index array only for BPSK's arithmetic mapping; for table look-up numpy reads it as a mask)
+            cands = [t_ for t_ in IDX_DTYPES if ((top <= 1 and sk == "BPSK") if t_ == "bool" else top <= np.iinfo(getattr(np, t_)).max)]
+            t_ = cands[k % len(cands)]
+            return np.asarray(idx).astype(bool if t_ == "bool" else getattr(np, t_)), t_
+
+        def mod_event(idx, lay, arg=None, k=0):
+            dt = "pyint"
+            if arg is None:
+                idx_t, dt = typed(idx, k)
+                arg = as_layout(idx_t, lay)
             o, res, argsok, frameok = invoke(obj.modulate, arg)
             shp = np.shape(idx)
             e = {"op": "mod", "idx": [int(v) for v in np.asarray(idx).reshape(-1)], "out": o, "pts": [], "ptsok": False, "shapeok": False,
-                 "shape": list(shp), "layout": lay, "argsok": argsok, "frameok": frameok, "ownok": True}
+                 "shape": list(shp), "layout": lay, "argsok": argsok, "frameok": frameok, "ownok": True, "dt": dt}
             if o == "ok":
                 e["pts"], e["ptsok"] = tb.to_coords(np.asarray(res).reshape(-1))
                 e["shapeok"] = tuple(np.shape(res)) == tuple(shp)
@@ -280,28 +294,29 @@ def record_history(spec):
             if si in (2, 4, 11) and n:
                 flat = idx.reshape(-1)
                 flat[rng.randint(0, n)] = M + (si // 4) * rng.randint(0, 3)     # M, or a little above
-            mod_event(idx, lay, arg=int(idx) if shp == () and lay == "C" else None)
+            mod_event(idx, lay, arg=int(idx) if shp == () and lay == "C" else None, k=si + spec.get("seed", 0))
         # two same-shape modulate calls, then the FIRST result (held by reference, not copied) is demodulated
         for shp in ((5,), (2, 3)):
             ia, ib = np.asarray(rng.randint(0, M, size=shp)), np.asarray(rng.randint(0, M, size=shp))
             ra = mod_event(ia, "C")
             mod_event(ib, "C")
             if isinstance(ra, np.ndarray) and ra.shape == tuple(shp):
-                lab_event("roundtrip", obj.demodulate, ra, int(np.prod(shp)), shp, "C", idx=[int(v) for v in ia.reshape(-1)])
+                lab_event("roundtrip", obj.demodulate, ra, int(np.prod(shp)), shp, "C", idx=[int(v) for v in ia.reshape(-1)], dt="int64")
         # demodulate(modulate(idx)) for index arrays of any shape; the modulated array is handed over in
         # the given memory layout (a transposed / Fortran-ordered / strided received array is still the same array)
-        for shp, lay in SHAPES[1:]:
+        for si, (shp, lay) in enumerate(SHAPES[1:]):
             idx = np.asarray(rng.randint(0, M, size=shp))
-            o, tx = outcome(lambda: np.asarray(obj.modulate(as_layout(idx, lay))).astype(complex))
+            idx_t, dt = typed(idx, si + 3 + spec.get("seed", 0))
+            o, tx = outcome(lambda: np.asarray(obj.modulate(as_layout(idx_t, lay))).astype(complex))
             rx = as_layout(tx, lay, fill=7 + 7j) if o == "ok" and np.shape(tx) == tuple(shp) else np.zeros(shp, dtype=complex)
-            lab_event("roundtrip", obj.demodulate, rx, int(np.prod(shp)), shp, lay, idx=[int(v) for v in idx.reshape(-1)])
+            lab_event("roundtrip", obj.demodulate, rx, int(np.prod(shp)), shp, lay, idx=[int(v) for v in idx.reshape(-1)], dt=dt)
         recheck()
         # all labels once (flat)
         allidx = np.arange(M) if M <= 1024 else rng.permutation(M)[:1024]
         o, res = outcome(lambda: demod_chunked(obj, np.asarray(obj.modulate(allidx)).astype(complex)))
         lab = [int(v) for v in res] if o == "ok" and len(res) == len(allidx) else [-2] * len(allidx)
         trace["events"].append({"op": "roundtrip", "idx": [int(v) for v in allidx], "lab": lab, "shapeok": o == "ok", "shape": [len(allidx)],
-                                "argsok": True})
+                                "argsok": True, "dt": "int64"})
         # demodulate noisy samples (python-chosen, on the exact grid): a transmitted point plus
         # Gaussian noise of about half the decision distance, and uniformly random samples
         for shp, lay in (((nsamp,), "C"), ((max(1, nsamp // 8), 2, 2), "C"), ((4, 6), "F"), ((6, 4), "T"), ((2, 3, 4), "F"),
